@@ -100,6 +100,8 @@ def gen_graph(rng, cyc=False, rich=True, nmin=3, nmax=7):
                            "spec": gen_spec(rng, pool), "tags": []}
                     if rich and rng.random() < 0.15:      # the line's own -t tag(s): setupRequired(m -t beta …)
                         dep["tags"] = rng.choice([["beta"], ["beta"], ["current"], ["beta", "current"]])
+                    if rich and rng.random() < 0.08:      # the line's own -k: keep for this line only
+                        dep["keep"] = True
                     acts.insert(rng.randint(0, len(acts)), dep)
             if rich and rng.random() < 0.04:
                 acts.insert(rng.randint(0, len(acts)), {"a": "dep", "name": "zz", "opt": rng.random() < 0.6, "just": False,
@@ -122,8 +124,39 @@ def gen_graph(rng, cyc=False, rich=True, nmin=3, nmax=7):
             cur[n] = rng.choice(vs) if (not rich or rng.random() > 0.03) else "9"      # rarely: a tag on an undeclared version
         if rng.random() < 0.4:
             beta[n] = rng.choice(vs)
-    return {"names": names, "pool": pool, "pathvars": pathvars, "space_root": space_root,
-            "decls": decls, "tags": {"current": cur, "beta": beta}, "cyc": cyc}
+    g = {"names": names, "pool": pool, "pathvars": pathvars, "space_root": space_root,
+         "decls": decls, "tags": {"current": cur, "beta": beta}, "cyc": cyc, "nstacks": 1}
+    if rich and rng.random() < 0.3:
+        add_second_stack(rng, g)
+    return g
+
+
+def add_second_stack(rng, g):
+    """A second stack ("mine"): the user's own builds of some (name, version) pairs that the first stack declares too —
+    same name and version, another directory, a slightly different table — plus the odd version of its own; its own
+    `current` tags.  Requests then run with EUPS_PATH = one stack, or both in either order."""
+    import copy
+    g["nstacks"] = 2
+    cur1 = {}
+    mine = []
+    for d in list(g["decls"]):
+        if rng.random() < 0.4:
+            t = copy.deepcopy(d["table"])
+            t.append({"a": "prepend", "var": "PATH", "own": True, "val": "/mine", "append": rng.random() < 0.5})
+            if rng.random() < 0.3:                      # the private build lost one of its lines
+                t = [x for x in t if not ("a" in x and x["a"] == "set")]
+            mine.append({"name": d["name"], "ver": d["ver"], "stack": 1, "sub": "Linux/%s/%s" % (d["name"], d["ver"]), "table": t})
+    for n in g["names"]:
+        if rng.random() < 0.2:
+            v = rng.choice([x for x in ["4", "4.1", "5"]])
+            mine.append({"name": n, "ver": v, "stack": 1, "sub": "Linux/%s/%s" % (n, v),
+                         "table": [{"a": "prepend", "var": "PATH", "own": True, "val": "/bin", "append": False}]})
+    for d in mine:
+        if rng.random() < 0.4:
+            cur1[d["name"]] = d["ver"]
+    g["decls"] += mine
+    g["tags1"] = {"current": cur1, "beta": {}}
+    return g
 
 
 def gen_request(rng, g, op=None, plain=False):
@@ -152,6 +185,7 @@ def gen_request(rng, g, op=None, plain=False):
         req["ver"] = {"v": rng.choice(vs)}
     if req["tags"] and rng.random() < 0.25:
         req["tags"] = rng.choice([["beta", "current"], ["current", "beta"], ["current"]])
+    req["path"] = [0] if g.get("nstacks", 1) == 1 else rng.choice([[0], [0], [1, 0], [1, 0], [0, 1], [1]])
     if req["op"] == "unsetup":
         # `unsetup p v`: the version is only compared with the set-up one (a warning)
         req["ver"] = {"v": rng.choice(vs)} if vs and rng.random() < 0.2 else None
@@ -175,7 +209,7 @@ def gen_prior(rng, g, mode=None):
     elif mode == "preset":
         env[d["name"].upper() + "_X"] = "old value"
     elif mode == "contained":
-        env["PATH"] = "/usr/bin:$S/%s/bin:/bin" % d["sub"]
+        env["PATH"] = "/usr/bin:%s/%s/bin:/bin" % (ROOTS[d.get("stack", 0)], d["sub"])
     elif mode == "stale":
         # a record eups wrote for a version that has been undeclared since (findSetupProduct finds nothing)
         n = d["name"]
@@ -281,7 +315,8 @@ def act_text(a, pathvars):
     if a["a"] == "alias":
         return "addAlias(%s, %s)" % (a["key"], a["val"])
     if a["a"] == "dep":
-        bits = [a["name"]] + (["-j"] if a["just"] else []) + [x for t in a.get("tags", []) for x in ("-t", t)] + \
+        bits = (["-k"] if a.get("keep") else []) + [a["name"]] + (["-j"] if a["just"] else []) + \
+            [x for t in a.get("tags", []) for x in ("-t", t)] + \
             ([spec_text(a["spec"])] if spec_text(a["spec"]) else [])
         return "%s(%s)" % ("setupOptional" if a["opt"] else "setupRequired", " ".join(bits))
     raise ValueError(a)
@@ -301,13 +336,34 @@ def table_text(table, pathvars):
     return "\n".join(out) + "\n"
 
 
+ROOTS = ["$S", "$T"]            # placeholders of the stack roots (stack 0, stack 1)
+
+
+def vk(v, k=0):
+    """Key of a declared version inside the harness: the version name, suffixed `@k` for a stack other than 0
+    (two stacks may declare the same name and version, with different directories and tables)."""
+    return v if not k else "%s@%d" % (v, k)
+
+
+def unvk(key):
+    if "@" in key:
+        v, k = key.rsplit("@", 1)
+        return v, int(k)
+    return key, 0
+
+
+def stack_tags(g, k):
+    return g["tags"] if k == 0 else g.get("tags%d" % k, {})
+
+
 class G:
-    """Index over a generated graph."""
+    """Index over a generated graph.  Declared versions are keyed (name, vk(version, stack))."""
 
     def __init__(self, g):
         self.g = g
         self.pathvars = g["pathvars"]
-        self.decl = {(d["name"], d["ver"]): d for d in g["decls"]}
+        self.nstacks = g.get("nstacks", 1)
+        self.decl = {(d["name"], vk(d["ver"], d.get("stack", 0))): d for d in g["decls"]}
         self.flat = {k: flat_table(d["table"]) for k, d in self.decl.items()}
         self.names = sorted({d["name"] for d in g["decls"]})
         self.setvars = sorted({a["var"] for fl in self.flat.values() for _, a in fl if a["a"] == "set"})
@@ -316,14 +372,34 @@ class G:
             self.edges.setdefault(n, set()).update(a["name"] for _, a in fl if a["a"] == "dep")
 
     def dir(self, n, v):
-        return "$S/" + self.decl[(n, v)]["sub"]
+        d = self.decl[(n, v)]
+        return ROOTS[d.get("stack", 0)] + "/" + d["sub"]
 
     def versions(self, n):
         return [v for (m, v) in self.decl if m == n]
 
+    def versions_on(self, n, path):
+        """keys of the versions of n declared in the stacks of the path, in path order"""
+        return [v for k in path for (m, v) in self.decl if m == n and unvk(v)[1] == k]
+
+    def find_ver(self, n, vname, path):
+        """the first stack on the path declaring (n, vname)"""
+        for k in path:
+            if (n, vk(vname, k)) in self.decl:
+                return vk(vname, k)
+        return None
+
+    def tagged(self, t, n, path):
+        """the first stack on the path whose tag t names a version of n that is declared there"""
+        for k in path:
+            v = stack_tags(self.g, k).get(t, {}).get(n)
+            if v is not None and (n, vk(v, k)) in self.decl:
+                return vk(v, k)
+        return None
+
     def owner(self, s):
         for (n, v), d in self.decl.items():
-            dd = "$S/" + d["sub"]
+            dd = ROOTS[d.get("stack", 0)] + "/" + d["sub"]
             if s == dd or s.startswith(dd + "/"):
                 return (n, v)
         return None
@@ -403,14 +479,18 @@ hooks.config.Eups.globalTags += ["beta"]
 
 
 def install(g, root):
-    """Write the stack for a graph under root; returns (stack root, userdata dir)."""
-    S = os.path.join(root, "the stack" if g.get("space_root") else "stack0")
-    os.makedirs(os.path.join(S, "ups_db"))
+    """Write the stacks for a graph under root; returns ([stack roots], userdata dir)."""
+    Ss = [os.path.join(root, "the stack" if g.get("space_root") else "stack0")]
+    for k in range(1, g.get("nstacks", 1)):
+        Ss.append(os.path.join(root, ("my other stack%d" if g.get("space_root") else "mine%d") % k))
+    for S in Ss:
+        os.makedirs(os.path.join(S, "ups_db"))
     ud = os.path.join(root, "userdata")
     os.makedirs(ud)
     with open(os.path.join(ud, "startup.py"), "w") as f:
         f.write(STARTUP)
     for d in g["decls"]:
+        S = Ss[d.get("stack", 0)]
         pd = os.path.join(S, d["sub"])
         os.makedirs(os.path.join(pd, "ups"), exist_ok=True)
         with open(os.path.join(pd, "ups", d["name"] + ".table"), "w") as f:
@@ -418,11 +498,13 @@ def install(g, root):
         os.makedirs(os.path.join(S, "ups_db", d["name"]), exist_ok=True)
         with open(os.path.join(S, "ups_db", d["name"], d["ver"] + ".version"), "w") as f:
             f.write(VERSION_FILE % {"n": d["name"], "v": d["ver"], "sub": d["sub"]})
-    for t, m in g["tags"].items():
-        for n, v in m.items():
-            with open(os.path.join(S, "ups_db", n, t + ".chain"), "w") as f:
-                f.write(CHAIN_FILE % {"n": n, "v": v, "t": t})
-    return S, ud
+    for k, S in enumerate(Ss):
+        for t, m in stack_tags(g, k).items():
+            for n, v in m.items():
+                os.makedirs(os.path.join(S, "ups_db", n), exist_ok=True)
+                with open(os.path.join(S, "ups_db", n, t + ".chain"), "w") as f:
+                    f.write(CHAIN_FILE % {"n": n, "v": v, "t": t})
+    return Ss, ud
 
 
 def ver_text(ver):
@@ -440,12 +522,16 @@ class _TooDeep(BaseException):
     optional lines that takes minutes).  Not an Exception, so `except Exception` in table.py lets it through."""
 
 
-def _do_request(S, ud, env, req):
+def req_path(req):
+    return list(req.get("path") or [0])
+
+
+def _do_request(Ss, ud, env, req):
     """Runs in a forked child: one command."""
     for k in list(os.environ):
         del os.environ[k]
     os.environ.update(env)
-    os.environ.update({"EUPS_PATH": S, "EUPS_USERDATA": ud, "EUPS_SHELL": "sh", "EUPS_FLAVOR": "Linux",
+    os.environ.update({"EUPS_PATH": ":".join(Ss[k] for k in req_path(req)), "EUPS_USERDATA": ud, "EUPS_SHELL": "sh", "EUPS_FLAVOR": "Linux",
                        "HOME": ud, "USER": "verif"})
     M = common.eups_mod("Eups")
     app = common.eups_mod("app")
@@ -518,11 +604,15 @@ def run_history(case):
     Returns the list of raw per-request results with `$S` substituted (see canon_result)."""
     root = common.scratch("setup")
     try:
-        S, ud = install(case["graph"], root)
-        env = {k: v.replace("$SZ", S.replace(" ", "-+-")).replace("$S", S) for k, v in case["prior"].items()}
+        Ss, ud = install(case["graph"], root)
+        S = Ss
+        def subst(v):
+            v = v.replace("$SZ", Ss[0].replace(" ", "-+-")).replace("$S", Ss[0])
+            return v.replace("$T", Ss[1]) if len(Ss) > 1 else v
+        env = {k: subst(v) for k, v in case["prior"].items()}
         outs = []
         for req in case["history"]:
-            r = common.in_child(_do_request, S, ud, env, req, _timeout=60)
+            r = common.in_child(_do_request, Ss, ud, env, req, _timeout=60)
             if r[0] != "ok":
                 with open(os.path.join(common.WORK, "failed-request-%s.json" % common.digest(case_input(case))), "w") as f:
                     json.dump({"case": case_input(case), "step": len(outs), "result": repr(r[:3])}, f)
@@ -535,7 +625,7 @@ def run_history(case):
             r = r[1]
             res = {"before": strip(env, S), "outcome": r["outcome"], "exc": r["exc"], "vro": r["vro"], "nest": r["nest"],
                    "after": strip(r["env"], S), "aliases": r["aliases"], "unaliased": r["unaliased"],
-                   "cmds": [c.replace(S, "$S") for c in r["cmds"]] if r["cmds"] is not None else None}
+                   "cmds": [strip_text(c, S) for c in r["cmds"]] if r["cmds"] is not None else None}
             if r["outcome"] == "ok":
                 shell, defs, undefs = apply_cmds(env, r["cmds"])
                 res["shell"] = strip(shell, S)
@@ -551,9 +641,14 @@ def run_history(case):
 INFRA_KEYS = ("EUPS_PATH", "EUPS_USERDATA", "EUPS_SHELL", "EUPS_FLAVOR", "HOME", "USER", "EUPS_VERIF", "EUPS_DIR")
 
 
-def strip(env, S):
-    enc = S.replace(" ", "-+-")
-    return {k: v.replace(S, "$S").replace(enc, "$S") for k, v in env.items() if k not in INFRA_KEYS}
+def strip_text(v, Ss):
+    for k in reversed(range(len(Ss))):          # longer / later roots first
+        v = v.replace(Ss[k], ROOTS[k]).replace(Ss[k].replace(" ", "-+-"), ROOTS[k])
+    return v
+
+
+def strip(env, Ss):
+    return {k: strip_text(v, Ss) for k, v in env.items() if k not in INFRA_KEYS}
 
 
 # ================================================================================================
@@ -578,8 +673,8 @@ def canon_env(G_, env):
     for k, v in env.items():
         if k.startswith("SETUP_"):
             f = v.split()
-            if len(f) == 6 and f[2:4] == ["-f", "Linux"] and f[4] == "-Z" and f[5] == "$S" and k == "SETUP_" + f[0].upper():
-                recs[f[0]] = f[1]
+            if len(f) == 6 and f[2:4] == ["-f", "Linux"] and f[4] == "-Z" and f[5] in ROOTS and k == "SETUP_" + f[0].upper():
+                recs[f[0]] = vk(f[1], ROOTS.index(f[5]))
             else:
                 recs[k] = "RAW:" + v
     for n in set(G_.names) | set(recs):
@@ -629,7 +724,7 @@ def model_db(G_):
             if a["a"] == "dep":
                 ver, vexpr = spec_model(a["spec"])
                 tb.append({"g": gd, "a": "dep", "name": a["name"], "opt": a["opt"], "just": a["just"], "ver": ver,
-                           "vexpr": vexpr, "tags": list(a.get("tags", []))})
+                           "vexpr": vexpr, "tags": list(a.get("tags", [])), "keep": bool(a.get("keep"))})
             elif a["a"] == "prepend":
                 tb.append({"g": gd, "a": "prepend", "var": a["var"], "append": a["append"],
                            "vals": [{"own": o, "val": t} for o, t in pvals(a)]})
@@ -637,15 +732,18 @@ def model_db(G_):
                 x = dict(a)
                 x["g"] = gd
                 tb.append(x)
-        decls.append({"name": n, "ver": v, "dir": "$S/" + d["sub"], "table": tb})
-    tags = [[t, n, v] for t, m in sorted(G_.g["tags"].items()) for n, v in sorted(m.items())]
+        decls.append({"name": n, "ver": d["ver"], "stack": d.get("stack", 0), "dir": G_.dir(n, v), "table": tb})
+    tags = [[t, n, v, k] for k in range(G_.nstacks) for t, m in sorted(stack_tags(G_.g, k).items())
+            for n, v in sorted(m.items())]
     return {"decls": decls, "tags": tags}
 
 
 def model_request(G_, db, before, req):
-    return {"m": "c01", "op": req["op"], "fuel": FUEL, "db": db, "env": canon_env(G_, before),
+    env = canon_env(G_, before)
+    env = dict(env, recs={n: list(unvk(v)) if not v.startswith("RAW:") else [v, 99] for n, v in env["recs"].items()})
+    return {"m": "c01", "op": req["op"], "fuel": FUEL, "db": db, "env": env,
             "req": {"name": req["name"], "ver": req["ver"], "keep": req["keep"], "max_depth": req["max_depth"],
-                    "inexact": req["inexact"], "tags": req["tags"]}}
+                    "inexact": req["inexact"], "tags": req["tags"], "path": req_path(req)}}
 
 
 def canon_model(ans):
@@ -656,7 +754,8 @@ def canon_model(ans):
     out = {"outcome": ans["out"], "vro": ans["vro"], "deep": False}
     if ans["out"] in ("ok", "raised"):
         e = ans["env"]
-        out["env"] = {"recs": e["recs"], "dirs": e["dirs"], "paths": {k: v for k, v in e["paths"].items() if v},
+        out["env"] = {"recs": {n: (vk(r[0], r[1]) if r[1] != 99 else r[0]) for n, r in e["recs"].items()},
+                      "dirs": e["dirs"], "paths": {k: v for k, v in e["paths"].items() if v},
                       "vars": e["vars"]}
     if ans["out"] == "ok":
         out["aliases"] = ans["aliases"]
@@ -748,43 +847,42 @@ def vmatch(v, e):
     return any(ops[op](vkey(v), vkey(w)) for op, w in e)
 
 
-def designated(G_, name, ver, vexpr, tags=("current",), line_tags=()):
-    """The version the default resolution order designates for a request taken on its own: an expression
-    -> the highest declared version satisfying it; an explicit version -> that version if declared, else the
-    highest one satisfying an accompanying [expr]; no version -> the tagged version.  None = cannot be resolved."""
-    vs = G_.versions(name)
+def designated(G_, name, ver, vexpr, tags=("current",), line_tags=(), path=(0,)):
+    """The declared version (key) the default resolution order designates for a request taken on its own, over the
+    stacks of the path: the line's own -t tags first; an expression -> the highest version satisfying it (the first
+    stack of the path carrying that version name); an explicit version -> the first stack declaring it, else the highest
+    one satisfying an accompanying [expr]; no version -> the tagged version.  None = cannot be resolved."""
+    def by_expr(e):
+        c = [unvk(v)[0] for v in G_.versions_on(name, path) if vmatch(unvk(v)[0], e)]
+        return G_.find_ver(name, max(c, key=vkey), path) if c else None
     for t in line_tags:            # the line's own -t tags stand in front of the whole VRO
-        v = G_.g["tags"].get(t, {}).get(name)
-        if v in vs:
+        v = G_.tagged(t, name, path)
+        if v is not None:
             return v
     if ver is not None and "e" in ver:
-        vexpr = ver["e"]
-        c = [v for v in vs if vmatch(v, vexpr)]
-        return max(c, key=vkey) if c else None
+        return by_expr(ver["e"])
     if ver is not None:
-        if ver["v"] in vs:
-            return ver["v"]
-        if vexpr:
-            c = [v for v in vs if vmatch(v, vexpr)]
-            if c:
-                return max(c, key=vkey)
-        return None
+        v = G_.find_ver(name, ver["v"], path)
+        if v is not None:
+            return v
+        return by_expr(vexpr) if vexpr else None
     for t in tags:
-        v = G_.g["tags"].get(t, {}).get(name)
-        if v in vs:
+        v = G_.tagged(t, name, path)
+        if v is not None:
             return v
     return None
 
 
-def closure(G_, name, ver, exact):
+def closure(G_, name, ver, exact, path=(0,), asked=None):
     """(set of (name, version) | None when the request fails, conflict-free?) — the dependency closure of the
     request: required dependencies, optional ones that can be resolved (together with everything they
-    require), honouring -j; computed on an acyclic name graph only."""
-    asked = {}                 # name -> versions requested along the traversal (failed attempts included)
+    require), honouring -j; computed on an acyclic name graph only.  `asked` (optional dict) receives, per name,
+    the set of versions requested along the traversal."""
+    asked = {} if asked is None else asked      # name -> versions requested (failed attempts included)
     conflict = [False]
 
     def visit(n, vr, vx, norec, acc, ltags=()):
-        v = designated(G_, n, vr, vx, line_tags=ltags)
+        v = designated(G_, n, vr, vx, line_tags=ltags, path=path)
         if v is None:
             return False
         asked.setdefault(n, set()).add(v)
@@ -798,6 +896,8 @@ def closure(G_, name, ver, exact):
         for a in G_.acts(n, v, exact):
             if a["a"] != "dep":
                 continue
+            if a.get("keep"):
+                conflict[0] = True        # a line's own -k: what it designates depends on what is set up
             vr2, vx2 = spec_model(a["spec"])
             sub = set(acc)
             # a line's -t tags go in front of the VRO in force, and stay in force for everything set up below it
@@ -890,12 +990,12 @@ def check_request(G_, req, r, stats=None, mixed=False):
         # --- C01 clause 4: explicit version --------------------------------------------------------
         if req["ver"] is not None and "v" in req["ver"]:
             cnt("c01_explicit")
-            if e1["recs"].get(name) != req["ver"]["v"]:
+            if unvk(e1["recs"].get(name) or "")[0] != req["ver"]["v"]:
                 yield ("C01", "explicit_version", "D17" if name in cyc else None,
                        "asked %s %s, record %r" % (name, req["ver"]["v"], e1["recs"].get(name)))
         # --- C01 clause 5: closure -----------------------------------------------------------------
         if not e0["recs"] and not req["keep"] and not req["tags"] and req["max_depth"] == -1 and not cyc:
-            cl, conflict_free = closure(G_, name, req["ver"], exact)
+            cl, conflict_free = closure(G_, name, req["ver"], exact, path=tuple(req_path(req)))
             if cl is not None and conflict_free:
                 cnt("c01_closure_checked")
                 got = set(e1["recs"].items())
@@ -1088,7 +1188,7 @@ def contributed(G_, recs, exact):
     return setv, el
 
 
-def conflict_with_just(G_, name, exact):
+def conflict_with_just(G_, name, exact, path=(0,)):
     """Product names that the tables reachable from `name` request in two different (designated) versions, at
     least one of the requesting lines carrying -j  (class predicate of D33)."""
     want = {}
@@ -1098,7 +1198,7 @@ def conflict_with_just(G_, name, exact):
                 if a["a"] == "dep":
                     vr, vx = spec_model(a["spec"])
                     w = want.setdefault(a["name"], [set(), False])
-                    w[0].add(designated(G_, a["name"], vr, vx, line_tags=tuple(a.get("tags", []))))
+                    w[0].add(designated(G_, a["name"], vr, vx, line_tags=tuple(a.get("tags", [])), path=tuple(path)))
                     w[1] = w[1] or a["just"]
     # "two different answers" includes "cannot be resolved": a -j line that fails at setup time still unwinds
     # whatever version is set up when the table is replayed for unsetup
@@ -1143,7 +1243,7 @@ def roundtrip_oracle(G_, case, raw, impl, model, stats):
                     el.setdefault(k_, set()).update(x_)
         e2 = canon_env(G_, rb["shell"])
         left_recs = {n for n in e2["recs"] if n not in e0["recs"]}
-        cj = conflict_with_just(G_, a["name"], not a["inexact"])
+        cj = conflict_with_just(G_, a["name"], not a["inexact"], req_path(a))
         d33 = bool(cj) and bool(left_recs) and left_recs <= G_.reach(cj)
         for k in sorted(set(x0) | set(x2)):
             if x0.get(k) != x2.get(k):
